@@ -80,7 +80,8 @@ M = {
     "xr_any_source_port": ("src/modules/xrcmd.c", "            from.sin_port >= IPPORT_RESERVED ||\n", ""),
     "xr_leak_s2": ("src/modules/xrcmd.c", "            err(\"%p: %S: rcmd: xpoll: protocol failure in circuit setup\\n\", ahost);\n          (void) close(s2);", "            err(\"%p: %S: rcmd: xpoll: protocol failure in circuit setup\\n\", ahost);"),
     "xr_plain_no_nul": ("src/modules/xrcmd.c", "        if (write(s, \"\", 1) != 1) {", "        if (write(s, \"\", 0) != 0) {"),
-    "xr_listen_after_write": ("src/modules/xrcmd.c", "        listen(s2, 1);\n        snprintf(num, sizeof(num), \"%d\", lport);\n        if (write(s, num, strlen(num) + 1) != strlen(num) + 1) {", "        snprintf(num, sizeof(num), \"%d\", lport);\n        if (listen(s2, 1), write(s, num, strlen(num) + 1) != strlen(num) + 1) {"),
+    "xr_law1": ("src/modules/xrcmd.c", "        listen(s2, 1);\n        snprintf(num, sizeof(num), \"%d\", lport);", "        snprintf(num, sizeof(num), \"%d\", lport);"),
+    "xr_law2": ("src/modules/xrcmd.c", "        errno = 0;\n        xpfds[0].fd = s;", "        listen(s2, 1);      /* xr_law1+xr_law2: listen only after the port was announced */\n        errno = 0;\n        xpfds[0].fd = s;"),
     "xr_write_before_connect": ("src/modules/xrcmd.c", "        rv = connect(s, (struct sockaddr *) &sin, sizeof(sin));", "        if (write(s, locuser, 0) < 0) { }\n        rv = connect(s, (struct sockaddr *) &sin, sizeof(sin));"),
     "xr_reply_any": ("src/modules/xrcmd.c", "    if (c != 0) {\n        /* retrieve error string", "    if (c != 0 && c != 1) {\n        /* retrieve error string"),
     # harmless rewrites (expected verdict: exit 0, no VIOLATION)
